@@ -87,3 +87,192 @@ def c10_rules(m):
 
 def c14_rules(m):
     return []
+
+
+# =================================================================================================
+# C01 / C02: matcher <-> printer shape agreement
+# =================================================================================================
+# elements a printer leaves out on purpose, with the reason (confirmed by reading)
+UNPRINTED_OK = {
+    ("Block_Stmt", 1): "the synthetic scope name of an unnamed BLOCK (the property exempts it)",
+    ("Data_Edit_Desc", 3): "always None for the descriptors this printer handles",
+    ("Data_Edit_Desc", 4): "always None for the descriptors this printer handles",
+    ("Critical_Stmt", 0): "the keyword CRITICAL itself; the printer emits the same literal",
+    ("Cpp_Linemarker_Stmt", 1): "the head pattern ends in .*$ and consumes the whole line, so no tail is ever matched",
+}
+
+
+def _names_read(f, names):
+    used = set()
+    for n in A.body_nodes(f.node):
+        if isinstance(n, ast.Name) and isinstance(n.ctx, ast.Load) and n.id in names:
+            used.add(n.id)
+    return used
+
+
+def resolve_printer(m, key):
+    """The printer function(s) that render a node's items: tostr (following `return Base.tostr(self)` delegation)."""
+    f = m.method(key, "tostr")
+    return f
+
+
+def printer_reads(m, key, f, depth=0):
+    """(set of read indices, whole-tuple flag, list of issues sources) for printer f of class key, following delegation."""
+    from sa import shapes as SH
+    u = SH.printer_use(f)
+    # self.children[k] is self.items[k] for non-block nodes
+    P = A.parents(f.node)
+    for n in A.body_nodes(f.node):
+        if isinstance(n, ast.Attribute) and n.attr == "children" and isinstance(n.value, ast.Name) and n.value.id == "self":
+            p = P.get(n)
+            if isinstance(p, ast.Subscript) and isinstance(p.slice, ast.Constant) and isinstance(p.slice.value, int):
+                u.indices.add(p.slice.value)
+            else:
+                u.whole.append(("children", None, p))
+    unpack_reads = set()
+    for cnt, node in u.unpack:
+        names = [e.id if isinstance(e, ast.Name) else None for e in node.targets[0].elts]
+        used = _names_read(f, {x for x in names if x})
+        for i, nm in enumerate(names):
+            if nm in used:
+                unpack_reads.add(i)
+    whole = any(k in ("format", "tuple", "iterate", "passed", "format-call", "children") for k, _, _ in u.whole)
+    # slices: self.items[a:b]
+    for k, _, node in u.whole:
+        if k == "slice":
+            whole = True
+    reads = set(u.indices) | unpack_reads
+    deleg = False
+    if depth < 3:
+        for c in u.delegates:
+            tgt = None
+            if isinstance(c.func.value, ast.Name):
+                k2 = m.class_of_name(f, c.func.value.id)
+                if k2:
+                    tgt = m.method(k2, c.func.attr)
+            if tgt is not None and tgt is not f:
+                r2, w2, u2 = printer_reads(m, key, tgt, depth + 1)
+                reads |= r2
+                whole |= w2
+            else:
+                deleg = True
+    # other methods of the same class called on self that read items (e.g. tostr_a)
+    for n in A.body_nodes(f.node):
+        if isinstance(n, ast.Call) and isinstance(n.func, ast.Attribute) and isinstance(n.func.value, ast.Name) and n.func.value.id == "self" \
+                and n.func.attr not in ("tostr",) and depth < 3:
+            g = m.method(key, n.func.attr)
+            if g is not None and g is not f:
+                r2, w2, _ = printer_reads(m, key, g, depth + 1)
+                reads |= r2
+                whole |= w2
+    return reads, whole or deleg or u.dynamic, u
+
+
+def flat_kinds(k):
+    if isinstance(k, tuple) and k and k[0] == "alt":
+        out = set()
+        for x in k[1]:
+            out |= flat_kinds(x)
+        return out
+    return {k}
+
+
+def c01_rules(m):
+    from sa import shapes as SH
+    from sa.callgraph import CallGraph
+    cg = CallGraph(m)
+    S = SH.Shapes(m, cg)
+    base = m.key("Base", UTILS)
+    block = m.key("BlockBase", UTILS)
+    r1 = RuleResult("C01.R1", "every rule class that can build a node has a printer")
+    r1.floor = 320
+    r2 = RuleResult("C01.R2", "the arity a matcher returns is the arity its init accepts and its printer indexes/formats/unpacks")
+    r2.floor = 250
+    r3 = RuleResult("C01.R3", "every element a matcher can put into a node is read by the node's printer")
+    r3.floor = 225
+    n_open = 0
+    for k in sorted(m.classes):
+        c = m.classes[k]
+        if not m.issub(k, base):
+            continue
+        mf = m.method(k, "match")
+        if mf is None and not m.is_generated_method(k, "match"):
+            continue
+        name = c["name"]
+        # ---- R1
+        r1.instances += 1
+        pf = m.method(k, "tostr")
+        has_printer = pf is not None
+        if m.issub(k, block):
+            has_printer = m.method(k, "tofortran") is not None
+        ss = S.of_func(mf) if mf is not None else None
+        builds = True if ss is None else bool(ss.shapes or ss.open)
+        if builds and not has_printer:
+            r1.ob(False)
+            r1.fail("%s|no-printer" % name, "%s.match can build a node but no tostr/tofortran resolves for it: str() of such a node raises "
+                    "AttributeError" % name, m.loc(mf) if mf else None)
+        else:
+            r1.ob(True, "%s: printer %s" % (name, (m.method_owner(k, "tostr") or m.method_owner(k, "tofortran") or "?").split(":")[-1]) if r1.instances % 60 == 1 else None)
+        if mf is None or ss is None or m.issub(k, block) or pf is None:
+            continue
+        if ss.open:
+            n_open += 1
+        ar = ss.arities()
+        if not ar:
+            continue
+        # ---- R2
+        r2.instances += 1
+        init = m.method(k, "init")
+        issues = []
+        if init is not None and not init.node.args.vararg:
+            ps = A.param_names(init.node)[1:]
+            req = [p for p in ps if p not in A.param_defaults(init.node)]
+            for a in ar:
+                if not (len(req) <= a <= len(ps)):
+                    issues.append(("init", "match returns %d values but %s takes %d" % (a, init.qualname, len(ps)), init))
+        reads, whole, u = printer_reads(m, k, pf)
+        init_owner = m.method_owner(k, "init") or ""
+        items_is_result = init_owner.endswith(":Base")       # items == the returned tuple
+        if items_is_result:
+            amin, amax = min(ar), max(ar)
+            guarded = {n for op, n, _ in u.len_guards}
+            for idx in sorted(u.indices):
+                need = idx + 1 if idx >= 0 else -idx
+                if need > amax or (need > amin and not u.len_guards and not ss.open):
+                    issues.append(("index", "the printer reads items[%d] but the matcher returns %s values" % (idx, sorted(ar)), pf))
+            for kind, nconv, node in u.whole:
+                if kind == "format" and nconv is not None and nconv not in ar and not ss.open:
+                    issues.append(("format", "`%s` has %d conversions but the matcher returns %s values" % (A.text(node)[:50], nconv, sorted(ar)), pf))
+            for cnt, node in u.unpack:
+                if cnt not in ar and not ss.open:
+                    issues.append(("unpack", "`%s` unpacks %d values but the matcher returns %s" % (A.text(node)[:50], cnt, sorted(ar)), pf))
+            for op, n, node in u.len_guards:
+                if n not in ar and not ss.open and op in ("NotEq", "Eq"):
+                    issues.append(("len-guard", "`%s` compares with %d but the matcher returns %s values" % (A.text(node)[:40], n, sorted(ar)), pf))
+        r2.ob(not issues, "%s: arities %s, printer indices %s" % (name, sorted(ar), sorted(u.indices)) if r2.instances % 50 == 1 else None)
+        for kind, msg, fn in issues[:2]:
+            r2.fail("%s|%s" % (name, kind), "%s: %s" % (name, msg), m.loc(fn))
+        # ---- R3
+        if not items_is_result:
+            continue
+        r3.instances += 1
+        unread = []
+        if not whole:
+            for a in ar:
+                for i in range(a):
+                    if i in reads or (i - a) in reads:
+                        continue
+                    kinds = set()
+                    for s in ss.shapes:
+                        if len(s) == a:
+                            kinds |= flat_kinds(s[i])
+                    harmless = all(x == "none" or (isinstance(x, tuple) and x[0] == "lit") for x in kinds)
+                    if harmless or (name, i) in UNPRINTED_OK:
+                        continue
+                    unread.append((i, a, kinds))
+        r3.ob(not unread, "%s: all %s elements read" % (name, sorted(ar)) if r3.instances % 50 == 1 else None)
+        for i, a, kinds in unread[:2]:
+            r3.fail("%s|unread|%d" % (name, i), "%s: the matcher can store %s in items[%d] (of %d) but the printer %s never reads it: that part "
+                    "of the source is dropped from the regenerated text" % (name, sorted(map(str, kinds))[:3], i, a, pf.qualname), m.loc(pf))
+    r1.notes.append("%d matchers with an undetermined (open) return among determinate ones" % n_open)
+    return [r1, r2, r3]
